@@ -8,12 +8,17 @@ JOBS=${JOBS:-4}; WTBASE=${WTBASE:-/tmp/wtM}
 HEAD=$(git -C /repo rev-parse HEAD)
 TMP=$(mktemp -d)
 ls -d ${SEEDS:-seeded/C*-m*} > $TMP/all
+# the scratch worktrees are created one after the other (concurrent `git worktree add` calls race on .git/worktrees)
+k=0
+while [ $k -lt $JOBS ]; do
+  [ -d "$WTBASE$k" ] || git -C /repo worktree add -q --detach "$WTBASE$k" "$HEAD" || exit 2
+  k=$((k+1))
+done
 k=0
 while [ $k -lt $JOBS ]; do
   awk -v k=$k -v n=$JOBS 'NR % n == k' $TMP/all > $TMP/list$k
   (
     WT=$WTBASE$k
-    [ -d "$WT" ] || git -C /repo worktree add -q --detach "$WT" "$HEAD" || exit 2
     git -C "$WT" checkout -q --detach "$HEAD"; git -C "$WT" checkout -- . ; git -C "$WT" clean -fdq
     while read d; do
       id=$(basename $d); prop=${id%%-*}
